@@ -147,6 +147,15 @@ def build():
     fns.append(mk(len(fns), "g", "fifo", limit=3, tags=("thread_pool",), events=("thread_exit",)))
     fns.append(mk(len(fns), "a", "lru", limit=3, name="thread_local_async"))
     fns.append(mk(len(fns), "t", "lru", limit=3, name="global_counter"))
+    # cache_if functions whose results leave the body through an explicit `return` (C10), plain and Result
+    for fl in ["g", "t"]:
+        fns.append(mk(len(fns), fl, "lru", early=True, cache_if=True))
+        fns.append(mk(len(fns), fl, "fifo", limit=3, early=True, cache_if=True, ret=2))
+    # Result functions with BOTH an entry limit and a ttl (an expired entry whose refresh fails stores nothing)
+    fns.append(mk(len(fns), "g", "fifo", limit=2, ttl=2, ret=2))
+    fns.append(mk(len(fns), "g", "lfu", limit=3, ttl=1, ret=3))
+    fns.append(mk(len(fns), "t", "lru", limit=2, ttl=2, ret=2))
+    fns.append(mk(len(fns), "a", "fifo", limit=2, ttl=2, ret=2))
     return fns
 
 
